@@ -299,9 +299,23 @@ func zzC18Receiver(populated bool, zone string) (w *Weekly) {
 // zzC18Build builds a real Weekly from the abstract schedule through one of
 // the public decoders, into a fresh or an already populated receiver.
 func zzC18Build(rng *rand.Rand, zone string, wk zzC18Week) (w *Weekly, via string, err error) {
-	pop := rng.Intn(2) == 0
+	w, via, _, err = zzC18BuildMode(rng, -1, zone, wk)
+
+	return w, via, err
+}
+
+// zzC18BuildMode is zzC18Build with the way of building either drawn (mode <
+// 0) or given (the recorded one, when a call is re-run): mode = 2*decoder +
+// populated.
+func zzC18BuildMode(rng *rand.Rand, mode int, zone string, wk zzC18Week) (w *Weekly, via string, used int, err error) {
+	if mode < 0 || mode > 5 {
+		mode = rng.Intn(6)
+	}
+
+	used = mode
+	pop := mode%2 == 1
 	w = zzC18Receiver(pop, zone)
-	switch rng.Intn(3) {
+	switch mode / 2 {
 	case 0:
 		via = "json"
 		err = json.Unmarshal([]byte(zzC18JSONDoc(rng, zone, wk)), w)
@@ -310,7 +324,7 @@ func zzC18Build(rng *rand.Rand, zone string, wk zzC18Week) (w *Weekly, via strin
 		err = yaml.Unmarshal([]byte(zzC18YAMLDoc(rng, zone, wk)), w)
 	default:
 		via = "json>yaml"
-		w0 := zzC18Receiver(rng.Intn(2) == 0, zone)
+		w0 := zzC18Receiver(!pop, zone)
 		err = json.Unmarshal([]byte(zzC18JSONDoc(rng, zone, wk)), w0)
 		if err != nil {
 			break
@@ -329,7 +343,7 @@ func zzC18Build(rng *rand.Rand, zone string, wk zzC18Week) (w *Weekly, via strin
 		via += " into populated receiver"
 	}
 
-	return w, via, err
+	return w, via, used, err
 }
 
 // The representations in which an instant is handed to Contains.  The
@@ -390,6 +404,9 @@ type zzC18Vec struct {
 	// Hist is the recorded sequence of earlier calls [s, n, pres] on the same
 	// Weekly object; it is executed first when re-running a recorded call.
 	Hist [][3]int64 `json:"hist"`
+
+	// Mode, when set, is the recorded way the Weekly was built.
+	Mode *int `json:"mode"`
 
 	// Serialisation vectors.
 	D        int      `json:"d"`
@@ -493,7 +510,12 @@ func zzC18ReplayEval(w *zzWriter, rng *rand.Rand, v *zzC18Vec) (evals, bad, conc
 		return 0, 0, 0, 0
 	}
 
-	sched, via, err := zzC18Build(rng, v.Zone, wk)
+	mode := -1
+	if v.Mode != nil {
+		mode = *v.Mode
+	}
+
+	sched, via, mode, err := zzC18BuildMode(rng, mode, v.Zone, wk)
 	if err == nil {
 		gz, gwk := zzC18Project(sched)
 		if gz != v.Zone || gwk != wk {
@@ -506,7 +528,7 @@ func zzC18ReplayEval(w *zzWriter, rng *rand.Rand, v *zzC18Vec) (evals, bad, conc
 		// decoders.
 		w.put(map[string]any{
 			"kind": "bad", "what": "build", "c": v.C, "zone": v.Zone, "shape": v.Shape, "w": v.W,
-			"via": via, "err": err.Error(),
+			"via": via, "mode": mode, "err": err.Error(),
 		})
 
 		return 0, 1, 0, 0
@@ -965,7 +987,7 @@ func TestZZVerifC18Trace(t *testing.T) {
 			ws[d] = [2]int64{r[0] / int64(time.Second), r[1] / int64(time.Second)}
 		}
 
-		sched, via, err := zzC18Build(rng, zone, wk)
+		sched, via, mode, err := zzC18BuildMode(rng, -1, zone, wk)
 		if err == nil {
 			if gz, gwk := zzC18Project(sched); gz != zone || gwk != wk {
 				err = fmt.Errorf("decoded schedule differs: zone %q ranges %v", gz, gwk)
@@ -975,7 +997,7 @@ func TestZZVerifC18Trace(t *testing.T) {
 		if err != nil {
 			w.put(map[string]any{
 				"k": "build", "zone": zone, "s": 0, "n": 0, "off": 0, "wd": 0, "tod": 0, "w": ws,
-				"got": 0, "via": via, "ser": []int{}, "detail": err.Error(), "wn": zzC18NoSub, "pres": 0, "obj": i, "call": 0,
+				"got": 0, "via": via, "ser": []int{}, "detail": err.Error(), "wn": zzC18NoSub, "pres": 0, "obj": i, "call": 0, "mode": mode,
 			})
 
 			continue
@@ -1023,7 +1045,7 @@ func TestZZVerifC18Trace(t *testing.T) {
 			w.put(map[string]any{
 				"k": "eval", "zone": zone, "s": s, "n": ns, "off": off, "wd": wd, "tod": tod, "w": ws,
 				"got": zzC18Bit(got), "via": via, "ser": []int{}, "detail": "", "offs": zzC18DayOffsets(it, loc),
-				"wn": zzC18NoSub, "pres": pres, "obj": i, "call": c,
+				"wn": zzC18NoSub, "pres": pres, "obj": i, "call": c, "mode": mode,
 			})
 		}
 	}
@@ -1140,6 +1162,6 @@ func zzC18TraceSer(w *zzWriter, rng *rand.Rand, zone string) {
 	what, detail, acc := zzC18CheckDocs(rng, zone, wk, []string{"accept", "reject"})
 	w.put(map[string]any{
 		"k": "ser", "zone": zone, "s": 0, "n": 0, "off": 0, "wd": 0, "tod": 0, "w": wm, "got": 0,
-		"via": what, "ser": []int{acc[0], acc[1], zzC18Bit(what == "")}, "detail": detail, "wn": wn, "pres": 0, "obj": -1, "call": 0,
+		"via": what, "ser": []int{acc[0], acc[1], zzC18Bit(what == "")}, "detail": detail, "wn": wn, "pres": 0, "obj": -1, "call": 0, "mode": 0,
 	})
 }
